@@ -348,7 +348,8 @@ func (s *SencBox) setSubSamplesUsedFlag() {
 
 // Size - box-specific type
 func (s *SencBox) Size() uint64 {
-	if s.readBoxSize > 0 {
+	if s.readButNotParsed && s.readBoxSize > 0 {
+		// Not parsed yet, so the raw data will be written as it was read
 		return s.readBoxSize
 	}
 	return s.calcSize()
@@ -357,9 +358,9 @@ func (s *SencBox) Size() uint64 {
 func (s *SencBox) calcSize() uint64 {
 	totalSize := uint64(boxHeaderSize + 8)
 	perSampleIVSize := uint64(s.GetPerSampleIVSize())
-	for i := uint32(0); i < s.SampleCount; i++ {
-		totalSize += perSampleIVSize
-		if s.Flags&UseSubSampleEncryption != 0 {
+	totalSize += perSampleIVSize * uint64(s.SampleCount)
+	if s.Flags&UseSubSampleEncryption != 0 {
+		for i := uint32(0); i < s.SampleCount; i++ {
 			totalSize += 2 + 6*uint64(len(s.SubSamples[i]))
 		}
 	}
